@@ -49,7 +49,7 @@ def caret_in_bagof(t):
 
 def key_fn(prog, q, o=None):
     k = S.failure_key(prog, q, o)
-    if k == "answers-differ" and (caret_in_bagof(q) or any(caret_in_bagof(b) for _, b in prog)):
+    if not k.startswith("one-char") and (caret_in_bagof(q) or any(caret_in_bagof(b) for _, b in prog)):
         return "bagof-setof-caret-with-remaining-free-variables-fails"
     return k
 
